@@ -572,7 +572,7 @@ def run_mod(E):
         return "neg" if x < 0 else ("lt" if x < mm else "ge")
 
     def ecls(ev):
-        return "e0" if ev == 0 else ("eneg" if ev < 0 else ("e1" if ev == 1 else "e"))
+        return "e0" if ev == 0 else ("e-1" if ev == -1 else ("eneg" if ev < 0 else ("e1" if ev == 1 else "e")))
 
     def mxp_verdict(key, out, x, ev, mm, r, ins):
         """common verdict of a^e mod m"""
